@@ -68,6 +68,9 @@ Section Main.
   Definition logp (e : logev) (k : proc) : proc := Put (ch_log n) (MLog e) k.
   (* what happens when Server.run raises inside the board loop: the log writer is closed by its context manager *)
   Definition abort : proc := logp LClose Fail.
+  (* a queue read of the main thread inside the board loop: an item that is not a text line makes the code raise there *)
+  Definition mget (f : string -> proc) (c : nat) : proc :=
+    Get c (fun m => match m with MS s => f s | _ => abort end).
 
   (* Server.bidding_phase *)
   Fixpoint bidding (fuel : nat) (s : astate) (k : astate -> proc) : proc :=
@@ -78,7 +81,7 @@ Section Main.
       | None => k s
       | Some a =>
         put_all conn (formal_name a)
-          (sget (fun m =>
+          (mget (fun m =>
              let (m', oc) := server_read_bid m (formal_name a) in
              match oc with
              | None => abort                                            (* parse_bid raises *)
@@ -98,7 +101,7 @@ Section Main.
       let a := pactive b in
       let played := if seat_beq a (dummy b) then declarer b else a in
       let body :=
-        sget (fun m =>
+        mget (fun m =>
            match parse_card m a with
            | None => abort
            | Some c =>
@@ -435,12 +438,13 @@ End Client.
 
 (* =====================================================================  the network  *)
 (* operator interrupt: KeyboardInterrupt raised in the main thread while it is blocked in its k-th queue read after the
-   log file has been opened; the context manager closes the log, then the exception leaves Server.run *)
+   log file has been opened and before it is closed (inside the with block); the context manager closes the log, then the
+   exception leaves Server.run.  After the close (joins) an interrupt just ends the main thread. *)
 Fixpoint interrupt_at (n : nat) (opened : bool) (k : nat) (p : proc) : proc :=
   match p with
   | Get c f => if opened then (match k with 0 => Put (ch_log n) (MLog LClose) Fail | S k' => Get c (fun m => interrupt_at n opened k' (f m)) end)
                else Get c (fun m => interrupt_at n opened k (f m))
-  | Put c m q => Put c m (interrupt_at n (opened || match m with MLog LOpen => true | _ => false end) k q)
+  | Put c m q => Put c m (interrupt_at n (match m with MLog LOpen => true | MLog LClose => false | _ => opened end) k q)
   | Bar q => Bar (interrupt_at n opened k q)
   | BarWait a q => BarWait a (interrupt_at n opened k q)
   | WriteCell x v q => WriteCell x v (interrupt_at n opened k q)
